@@ -150,4 +150,486 @@ Qed.
 
 End StreamProofs.
 
-Arguments limit_length_helper : clear implicits.
+
+(* ====================================================================================== *)
+(* to_arrow: transposition                                                                  *)
+(* ====================================================================================== *)
+Section TransposeProofs.
+Variable C : Type.
+
+Lemma zip_cons_length (r : list C) : forall cols, length (zip_cons r cols) = Nat.min (length r) (length cols).
+Proof.
+  induction r as [|x r IH]; intros [|c cs]; cbn [zip_cons length Nat.min]; try reflexivity.
+  rewrite IH. reflexivity.
+Qed.
+
+Lemma zip_cons_col_length n (r : list C) : forall X,
+  Forall (fun c => length c = n) X -> Forall (fun c => length c = S n) (zip_cons r X).
+Proof.
+  induction r as [|x r IH]; intros [|c cs] H; cbn [zip_cons]; try constructor.
+  - inversion H; subst. cbn [length]. reflexivity.
+  - inversion H; subst. apply IH. assumption.
+Qed.
+
+Lemma fold_zip_nil (l : list (list C)) : fold_right zip_cons [] l = [].
+Proof.
+  induction l as [|c l IH]; [reflexivity|]. cbn [fold_right]. rewrite IH. destruct c; reflexivity.
+Qed.
+
+Lemma zip_from_length w (rows : list (list C)) :
+  Forall (fun r => length r = w) rows -> length (zip_from w rows) = w.
+Proof.
+  unfold zip_from. induction rows as [|r rs IH]; intros H; cbn [fold_right].
+  - apply repeat_length.
+  - inversion H; subst. rewrite zip_cons_length, IH by assumption. apply Nat.min_id.
+Qed.
+
+Lemma zip_from_col_length w (rows : list (list C)) :
+  Forall (fun c => length c = length rows) (zip_from w rows).
+Proof.
+  unfold zip_from. induction rows as [|r rs IH]; cbn [fold_right length].
+  - induction w as [|w IHw]; cbn [repeat]; constructor; [reflexivity|exact IHw].
+  - apply zip_cons_col_length. exact IH.
+Qed.
+
+(* reading one more row across columns that each got one more cell *)
+Lemma zip_from_step m : forall (r : list C) (X : list (list C)), length r = length X ->
+  zip_from (S m) (zip_cons r X) = r :: zip_from m X.
+Proof.
+  unfold zip_from. induction r as [|x r IH]; intros [|c X] H; cbn [length] in H; try discriminate.
+  - reflexivity.
+  - cbn [zip_cons fold_right]. rewrite IH by lia. reflexivity.
+Qed.
+
+Lemma zip_from_involutive w (rows : list (list C)) :
+  Forall (fun r => length r = w) rows -> zip_from (length rows) (zip_from w rows) = rows.
+Proof.
+  induction rows as [|r rs IH]; intros H.
+  - cbn [length]. unfold zip_from at 1. apply fold_zip_nil.
+  - inversion H as [|? ? Hr Hrs]; subst. cbn [length].
+    change (zip_from (length r) (r :: rs)) with (zip_cons r (zip_from (length r) rs)).
+    rewrite zip_from_step by (rewrite zip_from_length by assumption; reflexivity).
+    rewrite IH by assumption. reflexivity.
+Qed.
+
+(* zip( *zip( *rows)) = rows for rectangular rows with at least one column *)
+Lemma zip_star_involutive (rows : list (list C)) w :
+  1 <= w -> rows <> [] -> Forall (fun r => length r = w) rows -> zip_star (zip_star rows) = rows.
+Proof.
+  intros Hw Hne H. destruct rows as [|r rs]; [congruence|].
+  assert (Hr : length r = w) by (inversion H; assumption).
+  unfold zip_star at 2. rewrite Hr.
+  pose proof (zip_from_length w (r :: rs) H) as HL.
+  pose proof (zip_from_col_length w (r :: rs)) as HC.
+  destruct (zip_from w (r :: rs)) as [|c cs] eqn:E; [cbn [length] in HL; lia|].
+  unfold zip_star. inversion HC as [|? ? Hc _]; subst. rewrite Hc, <- E.
+  apply zip_from_involutive. exact H.
+Qed.
+
+Lemma zip_star_repeat_nil n : zip_star (repeat (@nil C) n) = [].
+Proof.
+  destruct n as [|n]; [reflexivity|]. cbn [repeat zip_star length]. unfold zip_from. apply fold_zip_nil.
+Qed.
+
+Lemma Forall_firstn {A} (P : A -> Prop) n (l : list A) : Forall P l -> Forall P (firstn n l).
+Proof.
+  revert l; induction n as [|n IH]; intros [|x l] H; cbn [firstn]; try constructor.
+  - inversion H; assumption.
+  - apply IH. inversion H; assumption.
+Qed.
+
+Lemma head_Forall (P : list C -> Prop) size (rows : list (list C)) : Forall P rows -> Forall P (head size rows).
+Proof.
+  intros H. unfold head. destruct size as [z|]; [|exact H]. destruct (0 <=? z)%Z; [|exact H].
+  apply Forall_firstn. exact H.
+Qed.
+
+(* the arrays to_arrow builds: as many as there are column names, all of one length, and reading rows
+   across them gives back the first [size] rows *)
+Lemma to_arrow_cols_spec (rows : list (list C)) ncols size :
+  1 <= ncols -> Forall (fun r => length r = ncols) rows ->
+  length (to_arrow_cols rows ncols size) = ncols /\
+  (exists n, Forall (fun c => length c = n) (to_arrow_cols rows ncols size)) /\
+  zip_star (to_arrow_cols rows ncols size) = head size rows.
+Proof.
+  intros Hw H. pose proof (head_Forall _ size rows H) as Hh.
+  unfold to_arrow_cols. destruct (head size rows) as [|r rs] eqn:E.
+  - split; [apply repeat_length|]. split.
+    + exists 0. clear. induction ncols as [|n IH]; cbn [repeat]; constructor; [reflexivity|exact IH].
+    + apply zip_star_repeat_nil.
+  - assert (Hr : length r = ncols) by (inversion Hh; assumption).
+    split; [|split].
+    + unfold zip_star. rewrite Hr. apply zip_from_length. exact Hh.
+    + exists (length (r :: rs)). unfold zip_star. apply zip_from_col_length.
+    + apply (zip_star_involutive (r :: rs) ncols); [exact Hw|discriminate|exact Hh].
+Qed.
+
+End TransposeProofs.
+
+(* DataFrame -> arrow(size) -> DataFrame, rows *)
+Section RoundTripProofs.
+Variables (C T Nm : Type).
+Variable process_table : T -> N -> list (list C).
+Variable rows_of : T -> list (list C).
+Variable from_arrays : list (list C) -> list Nm -> T.     (* pyarrow.Table.from_arrays(arrays, names) *)
+Hypothesis process_ok : forall t b, (1 <= b)%N -> process_table t b = rows_of t.
+(* a table built from equally long arrays, one per name, holds those columns: its rows are read across them *)
+Hypothesis from_arrays_ok : forall cols names n,
+  length cols = length names -> Forall (fun c => length c = n) cols -> rows_of (from_arrays cols names) = zip_star cols.
+
+Lemma round_trip_nexts rows names size k :
+  1 <= length names -> Forall (fun r => length r = length names) rows ->
+  nexts process_table k (from_arrow_iter [from_arrays (to_arrow_cols rows (length names) size) names] None) =
+  map Some (firstn k (head size rows)) ++ repeat None (k - length (head size rows)).
+Proof.
+  intros Hw H.
+  destruct (to_arrow_cols_spec C rows (length names) size Hw H) as [HL [[n Hn] HZ]].
+  rewrite (from_arrow_nexts (list C) T process_table rows_of process_ok).
+  cbn [limit map concat]. rewrite app_nil_r.
+  rewrite (from_arrays_ok _ names n HL Hn), HZ. reflexivity.
+Qed.
+
+Lemma round_trip_drain rows names size fuel :
+  1 <= length names -> Forall (fun r => length r = length names) rows ->
+  drain process_table fuel (from_arrow_iter [from_arrays (to_arrow_cols rows (length names) size) names] None) =
+  firstn fuel (head size rows).
+Proof.
+  intros Hw H.
+  destruct (to_arrow_cols_spec C rows (length names) size Hw H) as [HL [[n Hn] HZ]].
+  rewrite (from_arrow_drain (list C) T process_table rows_of process_ok).
+  cbn [limit map concat]. rewrite app_nil_r.
+  rewrite (from_arrays_ok _ names n HL Hn), HZ. reflexivity.
+Qed.
+
+End RoundTripProofs.
+
+(* ====================================================================================== *)
+(* (b) column typing                                                                        *)
+(* ====================================================================================== *)
+
+Lemma optN_eqb_eq a b : optN_eqb a b = true -> a = b.
+Proof. destruct a, b; cbn; intros H; try discriminate; [apply N.eqb_eq in H; congruence|reflexivity]. Qed.
+
+Lemma optZ_eqb_eq a b : optZ_eqb a b = true -> a = b.
+Proof. destruct a, b; cbn; intros H; try discriminate; [apply Z.eqb_eq in H; congruence|reflexivity]. Qed.
+
+Definition quad : Type := N * option N * option Z * option Z.   (* type, element type, precision, scale *)
+
+Definition quad_eqb (a b : quad) : bool :=
+  let '(t, e, p, s) := a in let '(t', e', p', s') := b in
+  (t =? t')%N && optN_eqb e e' && optZ_eqb p p' && optZ_eqb s s'.
+
+Lemma quad_eqb_eq a b : quad_eqb a b = true -> a = b.
+Proof.
+  destruct a as [[[t e] p] s], b as [[[t' e'] p'] s']. cbn [quad_eqb]. intros H.
+  apply andb_prop in H as [H Hs]. apply andb_prop in H as [H Hp]. apply andb_prop in H as [Ht He].
+  apply N.eqb_eq in Ht. apply optN_eqb_eq in He. apply optZ_eqb_eq in Hp. apply optZ_eqb_eq in Hs. congruence.
+Qed.
+
+(* the typing part of column -> Arrow field -> column *)
+Definition type_trip (t : N) (e : option N) (p s : option Z) : result quad :=
+  bind (arrow_type_of t e p s) (from_arrow_type false).
+
+Definition trip_ok (t : N) (e : option N) (p s : option Z) (q : quad) : bool :=
+  match type_trip t e p s with Ok q' => quad_eqb q' q | Raise _ => false end.
+
+Lemma trip_ok_eq t e p s q : trip_ok t e p s q = true -> type_trip t e p s = Ok q.
+Proof.
+  unfold trip_ok. destruct (type_trip t e p s) as [q'|]; [|discriminate].
+  intros H. apply quad_eqb_eq in H. congruence.
+Qed.
+
+(* from the typing part to whole columns: name carried both ways, nullability carried from the field *)
+Lemma trip_column nm nl t e p s t' e' p' s' :
+  type_trip t e p s = Ok (t', e', p', s') ->
+  exists f, arrow_field (mkCol nm t e p s nl) = Ok f /\ fname f = nm /\
+            from_arrow_field false f = Ok (mkCol nm t' e' p' s' (fnullable f)).
+Proof.
+  unfold type_trip, arrow_field, arrow_field_named. cbn [ctype celem cprec cscale cname].
+  destruct (arrow_type_of t e p s) as [a|]; cbn [bind]; [|discriminate].
+  intros H. eexists. split; [reflexivity|]. split; [reflexivity|].
+  unfold from_arrow_field. cbn [ftype fname fnullable]. rewrite H. reflexivity.
+Qed.
+
+Lemma from_arrow_field_carry mab f c :
+  from_arrow_field mab f = Ok c -> cname c = fname f /\ cnullable c = fnullable f.
+Proof.
+  unfold from_arrow_field. destruct (from_arrow_type mab (ftype f)) as [[[[t e] p] s]|]; cbn [bind]; [|discriminate].
+  intros H. inversion H. split; reflexivity.
+Qed.
+
+Lemma arrow_field_named_carry nm c f :
+  arrow_field_named nm c = Ok f -> fname f = nm /\ fnullable f = arrow_field_nullable.
+Proof.
+  unfold arrow_field_named. destruct (arrow_type_of _ _ _ _); cbn [bind]; [|discriminate].
+  intros H. inversion H. split; reflexivity.
+Qed.
+
+Lemma mapM_from_arrow_names fs : forall cs,
+  arrow_to_orso_schema fs = Ok cs ->
+  map cname cs = map fname fs /\ map cnullable cs = map fnullable fs /\ length cs = length fs.
+Proof.
+  unfold arrow_to_orso_schema. induction fs as [|f fs IH]; intros cs; cbn [mapM].
+  - intros H. inversion H. repeat split; reflexivity.
+  - destruct (from_arrow_field false f) as [c|] eqn:Ef; cbn [bind]; [|discriminate].
+    destruct (mapM (from_arrow_field false) fs) as [cs'|]; cbn [bind]; [|discriminate].
+    intros H. inversion H; subst. destruct (IH cs' eq_refl) as [H1 [H2 H3]].
+    destruct (from_arrow_field_carry _ _ _ Ef) as [Hn Hl].
+    cbn [map length]. rewrite H1, H2, H3, Hn, Hl. repeat split; reflexivity.
+Qed.
+
+Lemma mapM_arrow_names use_ids cols : forall fs,
+  orso_to_arrow_schema use_ids cols = Ok fs ->
+  map fname fs = map (fun ic => if use_ids then fst ic else cname (snd ic)) cols.
+Proof.
+  unfold orso_to_arrow_schema. induction cols as [|ic cols IH]; intros fs; cbn [mapM].
+  - intros H. inversion H. reflexivity.
+  - destruct (arrow_field_named _ (snd ic)) as [f|] eqn:Ef; cbn [bind]; [|discriminate].
+    destruct (mapM _ cols) as [fs'|]; cbn [bind]; [|discriminate].
+    intros H. inversion H; subst. cbn [map]. rewrite (IH fs' eq_refl).
+    destruct (arrow_field_named_carry _ _ _ Ef) as [Hn _]. rewrite Hn. reflexivity.
+Qed.
+
+(* ---------- finite part: every type / element type, evaluated on the regenerated tables ---------- *)
+Definition excluded (t : N) : bool := ((t =? ty_STRUCT) || (t =? ty_JSONB) || (t =? ty_MISSING_TYPE))%N.
+
+Definition all_types : list N := map fst c11_type_names.
+
+Definition plain_types : list N :=
+  filter (fun t => negb (excluded t || (t =? ty_ARRAY) || (t =? ty_DECIMAL))%N) all_types.
+
+Definition elem_types : list N := filter (fun e => negb (excluded e)) accepted_elems.
+
+Lemma plain_types_trip : forallb (fun t => trip_ok t None None None (t, None, None, None)) plain_types = true.
+Proof. vm_compute. reflexivity. Qed.
+
+Lemma elem_types_trip :
+  forallb (fun e => trip_ok ty_ARRAY (Some e) None None (ty_ARRAY, Some e, None, None)) elem_types = true.
+Proof. vm_compute. reflexivity. Qed.
+
+Lemma plain_trip t :
+  In t all_types -> excluded t = false -> t <> ty_ARRAY -> t <> ty_DECIMAL ->
+  type_trip t None None None = Ok (t, None, None, None).
+Proof.
+  intros Hin Hex Ha Hd. apply trip_ok_eq.
+  pose proof plain_types_trip as H. rewrite forallb_forall in H. apply H.
+  unfold plain_types. apply filter_In. split; [exact Hin|].
+  rewrite Hex. apply N.eqb_neq in Ha. apply N.eqb_neq in Hd. rewrite Ha, Hd. reflexivity.
+Qed.
+
+Lemma elem_trip e :
+  In e accepted_elems -> excluded e = false ->
+  type_trip ty_ARRAY (Some e) None None = Ok (ty_ARRAY, Some e, None, None).
+Proof.
+  intros Hin Hex. apply trip_ok_eq.
+  pose proof elem_types_trip as H. rewrite forallb_forall in H. apply H.
+  unfold elem_types. apply filter_In. split; [exact Hin|]. rewrite Hex. reflexivity.
+Qed.
+
+(* the carve-out: what the excluded types come back as *)
+Lemma struct_trip : type_trip ty_STRUCT None None None = Ok (ty_BLOB, None, None, None).
+Proof. vm_compute. reflexivity. Qed.
+Lemma jsonb_trip : type_trip ty_JSONB None None None = Ok (ty_BLOB, None, None, None).
+Proof. vm_compute. reflexivity. Qed.
+Lemma missing_trip : type_trip ty_MISSING_TYPE None None None = Ok (ty_VARCHAR, None, None, None).
+Proof. vm_compute. reflexivity. Qed.
+Lemma array_struct_trip : type_trip ty_ARRAY (Some ty_STRUCT) None None = Ok (ty_ARRAY, Some ty_BLOB, None, None).
+Proof. vm_compute. reflexivity. Qed.
+Lemma array_jsonb_trip : type_trip ty_ARRAY (Some ty_JSONB) None None = Ok (ty_ARRAY, Some ty_BLOB, None, None).
+Proof. vm_compute. reflexivity. Qed.
+Lemma array_missing_trip : type_trip ty_ARRAY (Some ty_MISSING_TYPE) None None = Ok (ty_ARRAY, Some ty_VARCHAR, None, None).
+Proof. vm_compute. reflexivity. Qed.
+
+(* ---------- DECIMAL(p, s): all p, s ---------- *)
+Definition rule_exact (r : prule) : bool := match r with ROr _ => false | _ => true end.
+Definition is_prec (s : sel) : bool := match s with SelPrecision => true | SelScale => false end.
+
+(* what the symbolic proof needs from the regenerated tables *)
+Definition dec_tables_ok : bool :=
+  match assoc ty_DECIMAL top_table with
+  | Some (TmDecimal i) =>
+      match assoc i atm_table with
+      | Some (AtmDecimal SelPrecision SelScale) => true
+      | _ => false
+      end
+  | _ => false
+  end
+  && negb (ty_DECIMAL =? ty_ARRAY)%N
+  && is_prec (fst dec_arg0) && negb (is_prec (fst dec_arg1)) && rule_exact (snd dec_arg1).
+
+Lemma dec_tables_ok_true : dec_tables_ok = true.
+Proof. vm_compute. reflexivity. Qed.
+
+Lemma apply_arg_prec r p s : p <> 0%Z -> apply_arg (SelPrecision, r) (Some p) s = Ok p.
+Proof.
+  intros Hp. unfold apply_arg. cbn [fst snd]. destruct r; try reflexivity.
+  destruct (p =? 0)%Z eqn:E; [apply Z.eqb_eq in E; contradiction|reflexivity].
+Qed.
+
+Lemma apply_arg_scale r p s : rule_exact r = true -> apply_arg (SelScale, r) p (Some s) = Ok s.
+Proof. intros Hr. unfold apply_arg. cbn [fst snd]. destruct r; try reflexivity. discriminate. Qed.
+
+Lemma decimal_trip p s :
+  (1 <= p <= 38)%Z -> (0 <= s <= p)%Z ->
+  type_trip ty_DECIMAL None (Some p) (Some s) = Ok (ty_DECIMAL, None, Some p, Some s).
+Proof.
+  intros Hp Hs. pose proof dec_tables_ok_true as K. unfold dec_tables_ok in K.
+  destruct (assoc ty_DECIMAL top_table) as [[| |i]|] eqn:E1; try discriminate K.
+  destruct (assoc i atm_table) as [[| |[|] [|]]|] eqn:E2; try discriminate K.
+  destruct dec_arg0 as [s0 r0] eqn:E3. destruct dec_arg1 as [s1 r1] eqn:E4. cbn [fst snd] in K.
+  destruct s0; [|discriminate K]. destruct s1; [discriminate K|].
+  destruct (ty_DECIMAL =? ty_ARRAY)%N eqn:E5; [discriminate K|].
+  assert (Hr1 : rule_exact r1 = true) by (destruct (rule_exact r1); [reflexivity|discriminate K]).
+  assert (Hd : dec_entry i (Some p) (Some s) = Ok (ADec i p s)).
+  { unfold dec_entry. rewrite E3, E4.
+    rewrite apply_arg_prec by lia. rewrite apply_arg_scale by exact Hr1. cbn [bind].
+    unfold decimal128. replace ((1 <=? p)%Z && (p <=? 38)%Z) with true by lia. reflexivity. }
+  unfold type_trip, arrow_type_of, eager_decimal. rewrite E1, E5.
+  cbn [tm_atype]. rewrite Hd.
+  assert (He : (if dec_eager then bind (Ok (ADec i p s)) (fun _ : atype => Ok tt) else Ok tt) = Ok tt)
+    by (destruct dec_eager; reflexivity).
+  rewrite He. cbn [bind].
+  unfold from_arrow_type, arrow_type_map. cbn [atype_id]. rewrite E2. cbn [pick bind]. reflexivity.
+Qed.
+
+(* ---------- statements as used in Props/C11.v ---------- *)
+Lemma excluded_false t : t <> ty_STRUCT -> t <> ty_JSONB -> t <> ty_MISSING_TYPE -> excluded t = false.
+Proof.
+  intros H1 H2 H3. unfold excluded.
+  apply N.eqb_neq in H1. apply N.eqb_neq in H2. apply N.eqb_neq in H3. rewrite H1, H2, H3. reflexivity.
+Qed.
+
+Lemma type_round_trip_plain t nm nl :
+  In t (map fst c11_type_names) ->
+  t <> ty_STRUCT -> t <> ty_JSONB -> t <> ty_MISSING_TYPE -> t <> ty_ARRAY -> t <> ty_DECIMAL ->
+  exists f, arrow_field (mkCol nm t None None None nl) = Ok f /\ fname f = nm /\
+            from_arrow_field false f = Ok (mkCol nm t None None None (fnullable f)).
+Proof.
+  intros Hin H1 H2 H3 Ha Hd. apply trip_column.
+  apply plain_trip; [exact Hin|apply excluded_false; assumption|exact Ha|exact Hd].
+Qed.
+
+Lemma type_round_trip_array e nm nl :
+  In e accepted_elems -> e <> ty_STRUCT -> e <> ty_JSONB -> e <> ty_MISSING_TYPE ->
+  exists f, arrow_field (mkCol nm ty_ARRAY (Some e) None None nl) = Ok f /\ fname f = nm /\
+            from_arrow_field false f = Ok (mkCol nm ty_ARRAY (Some e) None None (fnullable f)).
+Proof.
+  intros Hin H1 H2 H3. apply trip_column. apply elem_trip; [exact Hin|apply excluded_false; assumption].
+Qed.
+
+Lemma type_round_trip_decimal p s nm nl :
+  (1 <= p <= 38)%Z -> (0 <= s <= p)%Z ->
+  exists f, arrow_field (mkCol nm ty_DECIMAL None (Some p) (Some s) nl) = Ok f /\ fname f = nm /\
+            from_arrow_field false f = Ok (mkCol nm ty_DECIMAL None (Some p) (Some s) (fnullable f)).
+Proof. intros Hp Hs. apply trip_column. apply decimal_trip; assumption. Qed.
+
+(* STRUCT / JSONB travel as binary, the untyped placeholder as string - as types and as element types *)
+Lemma binary_carried nm nl :
+  (exists f, arrow_field (mkCol nm ty_STRUCT None None None nl) = Ok f /\
+             from_arrow_field false f = Ok (mkCol nm ty_BLOB None None None (fnullable f))) /\
+  (exists f, arrow_field (mkCol nm ty_JSONB None None None nl) = Ok f /\
+             from_arrow_field false f = Ok (mkCol nm ty_BLOB None None None (fnullable f))) /\
+  (exists f, arrow_field (mkCol nm ty_MISSING_TYPE None None None nl) = Ok f /\
+             from_arrow_field false f = Ok (mkCol nm ty_VARCHAR None None None (fnullable f))) /\
+  (exists f, arrow_field (mkCol nm ty_ARRAY (Some ty_STRUCT) None None nl) = Ok f /\
+             from_arrow_field false f = Ok (mkCol nm ty_ARRAY (Some ty_BLOB) None None (fnullable f))) /\
+  (exists f, arrow_field (mkCol nm ty_ARRAY (Some ty_JSONB) None None nl) = Ok f /\
+             from_arrow_field false f = Ok (mkCol nm ty_ARRAY (Some ty_BLOB) None None (fnullable f))) /\
+  (exists f, arrow_field (mkCol nm ty_ARRAY (Some ty_MISSING_TYPE) None None nl) = Ok f /\
+             from_arrow_field false f = Ok (mkCol nm ty_ARRAY (Some ty_VARCHAR) None None (fnullable f))).
+Proof.
+  repeat split.
+  - destruct (trip_column nm nl _ _ _ _ _ _ _ _ struct_trip) as [f [H1 [_ H2]]]. exists f. split; assumption.
+  - destruct (trip_column nm nl _ _ _ _ _ _ _ _ jsonb_trip) as [f [H1 [_ H2]]]. exists f. split; assumption.
+  - destruct (trip_column nm nl _ _ _ _ _ _ _ _ missing_trip) as [f [H1 [_ H2]]]. exists f. split; assumption.
+  - destruct (trip_column nm nl _ _ _ _ _ _ _ _ array_struct_trip) as [f [H1 [_ H2]]]. exists f. split; assumption.
+  - destruct (trip_column nm nl _ _ _ _ _ _ _ _ array_jsonb_trip) as [f [H1 [_ H2]]]. exists f. split; assumption.
+  - destruct (trip_column nm nl _ _ _ _ _ _ _ _ array_missing_trip) as [f [H1 [_ H2]]]. exists f. split; assumption.
+Qed.
+
+Lemma stream_next_calls (R T : Type) (process_table : T -> N -> list R) (rows_of : T -> list R) :
+  (forall t b, (1 <= b)%N -> process_table t b = rows_of t) ->
+  forall (tables : list T) (size : option N) (k : nat),
+  nexts process_table k (from_arrow_iter tables size) =
+  map Some (firstn k (limit size (concat (map rows_of tables)))) ++
+  repeat None (k - length (limit size (concat (map rows_of tables)))).
+Proof. intros H tables size k. apply from_arrow_nexts. exact H. Qed.
+
+Lemma stream_collected (R T : Type) (process_table : T -> N -> list R) (rows_of : T -> list R) :
+  (forall t b, (1 <= b)%N -> process_table t b = rows_of t) ->
+  forall (tables : list T) (size : option N) (fuel : nat),
+  drain process_table fuel (from_arrow_iter tables size) = firstn fuel (limit size (concat (map rows_of tables))) /\
+  (length (limit size (concat (map rows_of tables))) <= fuel ->
+   drain process_table fuel (from_arrow_iter tables size) = limit size (concat (map rows_of tables))).
+Proof.
+  intros H tables size fuel. rewrite (from_arrow_drain R T process_table rows_of H). split; [reflexivity|].
+  intros Hl. apply firstn_all2. exact Hl.
+Qed.
+
+Lemma limit_meaning (A : Type) (l : list A) :
+  limit None l = l /\ limit (Some 0%N) l = l /\
+  forall n, (1 <= n)%N -> limit (Some n) l = firstn (N.to_nat n) l /\
+                          length (limit (Some n) l) = Nat.min (N.to_nat n) (length l).
+Proof.
+  split; [reflexivity|]. split; [reflexivity|]. intros n Hn. unfold limit.
+  destruct (n =? 0)%N eqn:E; [apply N.eqb_eq in E; lia|]. split; [reflexivity|apply firstn_length].
+Qed.
+
+Lemma zero_row_tables_invisible (R T : Type) (process_table : T -> N -> list R) (rows_of : T -> list R) :
+  (forall t b, (1 <= b)%N -> process_table t b = rows_of t) ->
+  forall (tables : list T) (size : option N) (k : nat),
+  nexts process_table k (from_arrow_iter tables size) =
+  nexts process_table k
+    (from_arrow_iter (filter (fun t => match rows_of t with [] => false | _ => true end) tables) size).
+Proof.
+  intros H tables size k. rewrite !(from_arrow_nexts R T process_table rows_of H).
+  rewrite <- (concat_skip_empty R T rows_of tables). reflexivity.
+Qed.
+
+Lemma round_trip_rows (C T Nm : Type) (process_table : T -> N -> list (list C)) (rows_of : T -> list (list C))
+      (from_arrays : list (list C) -> list Nm -> T) :
+  (forall t b, (1 <= b)%N -> process_table t b = rows_of t) ->
+  (forall cols names n, length cols = length names -> Forall (fun c => length c = n) cols ->
+                        rows_of (from_arrays cols names) = zip_star cols) ->
+  forall (rows : list (list C)) (names : list Nm) (size : option Z) (k : nat),
+  1 <= length names -> Forall (fun r => length r = length names) rows ->
+  nexts process_table k (from_arrow_iter [from_arrays (to_arrow_cols rows (length names) size) names] None) =
+    map Some (firstn k (head size rows)) ++ repeat None (k - length (head size rows)) /\
+  drain process_table k (from_arrow_iter [from_arrays (to_arrow_cols rows (length names) size) names] None) =
+    firstn k (head size rows).
+Proof.
+  intros H1 H2 rows names size k Hw Hr. split.
+  - apply (round_trip_nexts C T Nm process_table rows_of from_arrays H1 H2); assumption.
+  - apply (round_trip_drain C T Nm process_table rows_of from_arrays H1 H2); assumption.
+Qed.
+
+Lemma head_meaning (C : Type) (rows : list (list C)) :
+  head None rows = rows /\
+  (forall z, (0 <= z)%Z -> head (Some z) rows = firstn (Z.to_nat z) rows) /\
+  (forall z, (z < 0)%Z -> head (Some z) rows = rows).
+Proof.
+  split; [reflexivity|]. split; intros z Hz; unfold head.
+  - replace (0 <=? z)%Z with true by lia. reflexivity.
+  - replace (0 <=? z)%Z with false by lia. reflexivity.
+Qed.
+
+Lemma schema_names_carry fs cs :
+  arrow_to_orso_schema fs = Ok cs ->
+  map cname cs = map fname fs /\ map cnullable cs = map fnullable fs /\ length cs = length fs.
+Proof. apply mapM_from_arrow_names. Qed.
+
+Lemma arrow_schema_names use_ids cols fs :
+  orso_to_arrow_schema use_ids cols = Ok fs ->
+  map fname fs = map (fun ic => if use_ids then fst ic else cname (snd ic)) cols.
+Proof. apply mapM_arrow_names. Qed.
+
+(* the concrete instances used by the correspondence satisfy the oracle premises *)
+Lemma pt_rows_ok : forall (t : list (list cell)) (b : N), (1 <= b)%N -> pt_rows t b = (fun x => x) t.
+Proof. reflexivity. Qed.
+
+Lemma pt_cols_ok :
+  (forall (t : list (list cell)) (b : N), (1 <= b)%N -> pt_cols t b = zip_star t) /\
+  (forall (cols : list (list cell)) (names : list (list N)) (n : nat),
+     length cols = length names -> Forall (fun c => length c = n) cols ->
+     zip_star ((fun c (_ : list (list N)) => c) cols names) = zip_star cols).
+Proof. split; reflexivity. Qed.
